@@ -58,7 +58,7 @@ def classify(msg):
 
 
 def run_verus(path, workdir, rlimit=None, threads=8):
-    cmd = ['verus', os.path.basename(path), '--output-json', '--time', '--multiple-errors', '10',
+    cmd = ['verus', os.path.basename(path), '--output-json', '--time', '--multiple-errors', '5',
            '--triggers-mode', 'silent', '--error-format=json', '--num-threads', str(threads)]
     if rlimit:
         cmd += ['--rlimit', str(rlimit)]
@@ -109,7 +109,13 @@ def analyse(gen, res, modname):
         kind = classify(msg)
         spans = d.get('spans', [])
         if kind is None:
-            tool_errors.append({'message': msg, 'rendered': (d.get('rendered') or '')[:1500]})
+            te = {'message': msg, 'rendered': (d.get('rendered') or '')[:1500], 'fn': None}
+            for sp in spans:
+                info = gen_line_info(gen, sp['line_start'])
+                if info and info.get('fn'):
+                    te['fn'] = info['fn']
+                    break
+            tool_errors.append(te)
             continue
         primary = next((s for s in spans if s.get('is_primary')), spans[0] if spans else None)
         fn, tags, clause_line, clause_text = None, None, None, None
@@ -168,6 +174,12 @@ def analyse(gen, res, modname):
     except (KeyError, TypeError):
         pass
     vr = (js.get('verification-results') or {})
+    # With --multiple-errors Verus re-queries a function after its first failed obligation to look for more; those
+    # extra queries may exhaust the resource limit.  A resource-limit message for a function that already has a
+    # definite failed obligation adds nothing and must not turn the run into 'undecided'.
+    failed_fns = {f['function'] for f in failures}
+    tool_errors = [t for t in tool_errors
+                   if not (any(re.search(rx, t['message']) for rx in TOOL_LIMIT) and t.get('fn') in failed_fns)]
     limit = [t for t in tool_errors if any(re.search(rx, t['message']) for rx in TOOL_LIMIT)]
     status = 'ok'
     reason = None
